@@ -278,13 +278,17 @@ impl StringDecoder for Unreal2StringDecoder {
         let result: String = result
             .chars()
             .filter(|c: &char| {
-                if '\x1b'.eq(c) {
-                    char_skip = 4;
+                // The 3 characters after an escape are its colour components (whatever their value)
+                if char_skip > 0 {
+                    char_skip -= 1;
                     return false;
                 }
-                char_skip = char_skip.saturating_sub(1);
+                if '\x1b'.eq(c) {
+                    char_skip = 3;
+                    return false;
+                }
 
-                char_skip == 0
+                true
             })
             .collect();
 
